@@ -59,6 +59,71 @@ theorem batch_honest_admitted (cr : Crypto) (cfg : ChainCfg) (h : Nat) (have_ : 
     · rw [if_neg hc]
       exact ih have_ hfresh hrest
 
+/-! ## sequences of deliveries: what was delivered before does not matter -/
+
+theorem hashesAfter_mono (cr : Crypto) (cfg : ChainCfg) (h : Nat) (have_ : List Bytes) (txs : List Tx) :
+    ∀ x ∈ have_, x ∈ hashesAfter cr cfg h have_ txs := by
+  induction txs generalizing have_ with
+  | nil => intro x hx; exact hx
+  | cons t rest ih =>
+    intro x hx
+    unfold hashesAfter
+    split
+    · exact ih _ x (List.mem_cons_of_mem _ hx)
+    · exact ih _ x hx
+
+/-- Every authentic element of a batch is in the pool afterwards (admitted now, or its hash was
+    already there), whatever else the batch contains and wherever it stands. -/
+theorem batch_honest_present_after (cr : Crypto) (cfg : ChainCfg) (h : Nat) (have_ : List Bytes) (txs : List Tx)
+    (t : Tx) (ht : t ∈ txs) (hok : verifyTx cr cfg h t = .ok) : t.hash ∈ hashesAfter cr cfg h have_ txs := by
+  induction txs generalizing have_ with
+  | nil => cases ht
+  | cons x rest ih =>
+    unfold hashesAfter
+    rcases List.mem_cons.1 ht with rfl | hr
+    · by_cases hc : verifyTx cr cfg h t = .ok ∧ t.hash ∉ have_
+      · rw [if_pos hc]
+        exact hashesAfter_mono cr cfg h _ rest _ (List.mem_cons_self ..)
+      · rw [if_neg hc]
+        have : t.hash ∈ have_ := by
+          by_cases hm : t.hash ∈ have_
+          · exact hm
+          · exact absurd ⟨hok, hm⟩ hc
+        exact hashesAfter_mono cr cfg h _ rest _ this
+    · split
+      · exact ih _ hr
+      · exact ih _ hr
+
+theorem hashesAfterSeq_mono (cr : Crypto) (cfg : ChainCfg) (h : Nat) (batches : List (List Tx)) :
+    ∀ (have_ : List Bytes), ∀ x ∈ have_, x ∈ hashesAfterSeq cr cfg h have_ batches := by
+  induction batches with
+  | nil => intro _ x hx; exact hx
+  | cons b rest ih =>
+    intro have_ x hx
+    unfold hashesAfterSeq
+    rw [List.foldl_cons]
+    exact ih _ x (hashesAfter_mono cr cfg h have_ b x hx)
+
+/-- **Order and grouping of deliveries do not matter for an honest transaction**: in any sequence of
+    batches — tampered copies carrying its hash delivered before it, after it, in the same or in
+    other batches — an authentic transaction that is delivered at all ends up in the pool. The
+    handlers keep no memory of rejected hashes (seeded regression C07-j adds one). -/
+theorem sequence_honest_present_after (cr : Crypto) (cfg : ChainCfg) (h : Nat) (batches : List (List Tx))
+    (have_ : List Bytes) (b : List Tx) (hb : b ∈ batches) (t : Tx) (ht : t ∈ b)
+    (hok : verifyTx cr cfg h t = .ok) : t.hash ∈ hashesAfterSeq cr cfg h have_ batches := by
+  induction batches generalizing have_ with
+  | nil => cases hb
+  | cons x rest ih =>
+    unfold hashesAfterSeq
+    rw [List.foldl_cons]
+    rcases List.mem_cons.1 hb with rfl | hr
+    · exact hashesAfterSeq_mono cr cfg h rest _ _ (batch_honest_present_after cr cfg h have_ b t ht hok)
+    · exact ih _ hr
+
+/-- a copy carrying the honest transaction's hash delivered first in its own batch: the hash is in the pool afterwards -/
+example : hashesAfterSeq toyCrypto toyCfg 0 [] [[{ toyNative with data := [57] }], [toyNative]] = [toyNative.hash] := by
+  decide
+
 /-- a forged element (hash changed) in front of an honest one: only the honest one is admitted -/
 example : admitBatch toyCrypto toyCfg 0 [] [{ toyNative with hash := List.replicate 32 9 }, toyNative] = [toyNative] := by
   decide
